@@ -139,19 +139,40 @@ func mustInl(p *core.Program, r *core.Report, rule, key string) *ssa.Function {
 	return p.Inlined(fn)
 }
 
-// consistentWith selects the decision paths on which every test `<subject> == "x"` has the value
-// it has when the subject is val (if/switch/table-free way of asking "what happens for val").
-func consistentWith(paths []core.DecisionPath, subject, val string) []core.DecisionPath {
+// litAbout evaluates a literal that tests `subject` against constants - `subject == "x"`, or the
+// membership `in(set‹..›,subject)` / `in(map‹..›,subject)` in a fixed private table - for the
+// case that the subject has the value val. relevant is false for any other literal.
+func litAbout(l core.Lit, subject, val string) (relevant, holds bool) {
 	pre := subject + ` == "`
+	if strings.HasPrefix(l.Atom, pre) && strings.HasSuffix(l.Atom, `"`) {
+		x := strings.TrimSuffix(strings.TrimPrefix(l.Atom, pre), `"`)
+		return true, l.Val == (x == val)
+	}
+	if strings.HasPrefix(l.Atom, "in(") && strings.HasSuffix(l.Atom, ","+subject+")") {
+		table := strings.TrimSuffix(strings.TrimPrefix(l.Atom, "in("), ","+subject+")")
+		if strings.HasPrefix(table, "set‹") || strings.HasPrefix(table, "map‹") {
+			member := false
+			for _, k := range tableKeys(table) {
+				if k == val {
+					member = true
+				}
+			}
+			return true, l.Val == member
+		}
+	}
+	return false, false
+}
+
+// consistentWith selects the decision paths on which every test of the subject against constants
+// (equalities, membership in fixed tables) has the value it has when the subject is val: an
+// if/switch/table-free way of asking "what happens for val".
+func consistentWith(paths []core.DecisionPath, subject, val string) []core.DecisionPath {
 	var out []core.DecisionPath
 	for _, pa := range paths {
 		ok := true
 		for _, l := range pa.Lits {
-			if strings.HasPrefix(l.Atom, pre) && strings.HasSuffix(l.Atom, `"`) {
-				x := strings.TrimSuffix(strings.TrimPrefix(l.Atom, pre), `"`)
-				if l.Val != (x == val) {
-					ok = false
-				}
+			if rel, holds := litAbout(l, subject, val); rel && !holds {
+				ok = false
 			}
 		}
 		if ok {
@@ -599,4 +620,20 @@ func ThoroughSelfCheck(p *core.Program, r *core.Report) {
 	}
 	r.Stats["thorough_clones_verified"] = n
 	r.Stats["thorough_clones_malformed"] = bad
+}
+
+// inlineDisplayGiven: the literal says that the style attribute carries a display declaration
+// (the reviewed pattern matched): `len(m) >= 2` or `m != nil` on the submatch result.
+func inlineDisplayGiven(l core.Lit) bool {
+	m := "regexp.Regexp.FindStringSubmatch(" + rxDisplay + ","
+	if strings.HasPrefix(l.Atom, "len("+m) && strings.HasSuffix(l.Atom, " <= 1") {
+		return !l.Val
+	}
+	if strings.HasPrefix(l.Atom, m) && strings.HasSuffix(l.Atom, " == nil") {
+		return !l.Val
+	}
+	if strings.HasPrefix(l.Atom, "len("+m) && strings.HasSuffix(l.Atom, " <= 0") {
+		return !l.Val
+	}
+	return false
 }
